@@ -4,6 +4,7 @@ import (
 	"encoding/json"
 	"fmt"
 	"os"
+	"strconv"
 	"strings"
 	"testing"
 	"time"
@@ -114,6 +115,9 @@ func TestWorker(t *testing.T) {
 			break
 		}
 		seed := simrt.Mix(base, prop, uint64(i))
+		if es := os.Getenv("VERIF_EXACT_SEED"); es != "" {
+			seed, _ = strconv.ParseUint(es, 10, 64)
+		}
 		cfg := DrawConfig(seed, profileFor(prop))
 		adjustConfigFor(&cfg, prop, seed)
 		fmt.Fprintf(os.Stderr, "run %d seed %d\n", i, seed)
